@@ -693,6 +693,27 @@ def rule_trunc(c, prog):
     if len(loops) != 1:
         raise core.AnchorMissing("Deserializer::deserialize: chunk loop")
     lp = loops[0]
+    # `while !done { .. done = true .. }`: setting the flag the loop tests is the `break` of that spelling, and the
+    # `break` the desugared `while` carries in its else branch is not an exit of its own
+    flag_lids, desugared_breaks = set(), set()
+    top = None
+    b0 = lp.get("b") or {}
+    cand = (b0.get("expr") or (b0.get("stmts") or [{}])[-1].get("e")) if b0 else None
+    if cand is not None:
+        top = core.strip(cand)
+        while top.get("k") in ("DropTemps", "Block") and (top.get("e") or (top.get("b", {}).get("expr"))):
+            top = core.strip(top.get("e") or top["b"]["expr"])
+    if top is not None and top.get("k") == "If" and lp.get("src") in ("While", "WhileLet", "Loop"):
+        cnd = core.strip(top["c"])
+        while cnd.get("k") == "DropTemps":
+            cnd = core.strip(cnd["e"])
+        if cnd.get("k") == "Unary" and cnd.get("op") in ("!", "Not") and core.strip(cnd["e"]).get("res") == "local" and (core.strip(cnd["e"]).get("ty") == "bool"):
+            flag_lids.add(core.strip(cnd["e"])["lid"])
+            if "f" in top:
+                desugared_breaks |= {id(x) for x in core.walk(top["f"]) if x.get("k") == "Break"}
+
+    def sets_flag(e):
+        return any(x.get("k") == "Assign" and core.strip(x["l"]).get("lid") in flag_lids and core.lit_value(x["r"]) is True for x in core.walk(e))
     m = [n for n in core.walk(lp) if n.get("k") == "Match" and n.get("src") == "Normal"]
     breaks = {}
     arms_ok = None
@@ -709,7 +730,7 @@ def rule_trunc(c, prog):
             elif p.get("k") in ("Wild", "Binding"):
                 key = "_"
             if key is not None:
-                has_break = any(x.get("k") == "Break" for x in core.walk(arm["body"]))
+                has_break = any(x.get("k") == "Break" for x in core.walk(arm["body"])) or sets_flag(arm["body"])
                 has_ret = any(x.get("k") == "Ret" for x in core.walk(arm["body"]) if core.as_try(x) is None)
                 errs = [x for x in core.walk(arm["body"]) if x.get("k") == "Ret"]
                 lits[key] = (has_break, bool(errs))
@@ -718,7 +739,7 @@ def rule_trunc(c, prog):
     if arms_ok is None:
         raise core.AnchorMissing("Deserializer::deserialize: match on chunk name with an END arm")
     bad = [k for k, (b, r) in arms_ok.items() if b and k not in ("END\0", "END\x00")]
-    other_breaks = [x for x in core.walk(lp) if x.get("k") == "Break"]
+    other_breaks = [x for x in core.walk(lp) if (x.get("k") == "Break" and id(x) not in desugared_breaks) or (x.get("k") == "Assign" and core.strip(x["l"]).get("lid") in flag_lids and core.lit_value(x["r"]) is True)]
     if not bad and len(other_breaks) == 1 and arms_ok.get("END\0", arms_ok.get("END\x00"))[0]:
         c.ok(R, "binary:only-END-breaks")
     else:
